@@ -60,7 +60,7 @@ HOSTS = [("server.test", False, "server.test"), ("127.0.0.1", False, "127.0.0.1"
          ("[2001:db8::7]", True, "2001:db8::7"), ("Upper.Test", False, "upper.test")]
 PORTS = [0, 80, 443, 8080, 1, 65535]
 PATHS = ["", "/", "/a/b", "/x.y-z_~", "/app;jsessionid=AB12"]
-QUERIES = ["", "x=1&y=2", "q"]
+QUERIES = ["", "x=1&y=2", "q", "q=a+b&r=(1)*'$!,;:@[x]", "next=/login?from=home"]
 OPT_DIMS = {
     "host": [None, "override.test:9"],
     "origin": [None, "https://o.test"],
@@ -74,6 +74,8 @@ OPT_DIMS = {
     "wcap": [None, 1, 50],         # the transport accepts at most this many bytes per write        # debug tracing on: what is logged (and possibly masked there) must not change the wire
 }
 OPT_DIMS["header"].append(["Authorization: Basic dXNlcjpwYXNz", "X-Api-Key: s3cret"])
+OPT_DIMS["header"].append(["X-Forwarded-For: 10.0.0.1", "X-Forwarded-For: 10.0.0.2", "x-forwarded-for: 10.0.0.3"])   # a repeated field stays repeated
+OPT_DIMS["header"].append({"X-Token": "1", "x-token": "2"})
 OPT_DIMS["cookie"].append("session=abc123; token=xyz")
 
 
